@@ -321,8 +321,17 @@ func extractDecoder(repo, root string) error {
 	}
 	decInspect(readBatchWith.Body, func(n ast.Node) {
 		is, ok := n.(*ast.IfStmt)
-		if !ok || !d.plainIfElse(is, "highWaterMark == offset", "msgs = &messageSetReader{empty: true}") {
+		// the branch installs the empty reader; since the fix for C11-D32 it also skips the message set the response
+		// may carry (`if remain > 0 { _, err = discardN(&c.rbuf, remain, remain) }`): further statements are accepted
+		// as long as they only discard bytes
+		if !ok || is.Init != nil || d.render(is.Cond) != "highWaterMark == offset" || len(is.Body.List) < 1 ||
+			d.render(is.Body.List[0]) != "msgs = &messageSetReader{empty: true}" {
 			return
+		}
+		for _, extra := range is.Body.List[1:] {
+			if d.containsCall(extra, "discardN") == nil {
+				return
+			}
 		}
 		if blk, ok := is.Else.(*ast.BlockStmt); ok && d.containsCall(blk, "newMessageSetReader") != nil {
 			facts.emptyWhenHwmEqOffset = true
